@@ -17,6 +17,14 @@ import b2fcommon as bc
 def run(ctx):
     binary = vlib.build_harness(ctx)
     quick = ctx.tier == "quick"
+    # the CMS-style quit at the level of the mechanism: with the write error of the pointless FF / FQ ignored (the code), the
+    # station that has nothing to send ends cleanly and every other property of B2F.tla still holds; not ignoring it is the
+    # named deviation that must break QuitIsClean
+    vlib.design_check(ctx, bc.SPECDIR, "MCB2F", "B2F_cms.cfg")
+    vlib.design_check(ctx, bc.SPECDIR, "MCB2F", "B2F_cmslive.cfg")
+    dev = vlib.tlc(ctx, bc.SPECDIR, "MCB2F", "B2F_cmsfatal.cfg")
+    if dev.violated != "QuitIsClean":
+        raise vlib.Undecided("B2F_cmsfatal.cfg no longer produces the QuitIsClean counterexample")
     traces = ctx.path("traces.ndjson")
     scen = ctx.path("scen.ndjson")
     p = vlib.run_harness(ctx, binary, ["b2f-c05", "--out", traces, "--scenarios", scen, "--n", "1200" if quick else "20000",
